@@ -706,7 +706,8 @@ class RealRunner:
         return (buf.getvalue().decode(enc) if enc else buf.getvalue()), None
 
 
-def run_case(runner, tmp, cmd, start, target):
+def run_case(runner, tmp, cmd, start, target, start_spelled=None):
+    """start: the heads the database is at (full ids); start_spelled: how the --sql range names them (labels, prefixes, ...)"""
     vt = runner.env["version_table"]
     """db0 := online upgrade to each `start` head; A := online cmd; B := offline script executed
     with sqlite3.  Returns dict with dumps, script, errors."""
@@ -715,7 +716,8 @@ def run_case(runner, tmp, cmd, start, target):
     for p in (a, b):
         if os.path.exists(p):
             os.remove(p)
-    res = {"setup_error": None, "online_error": None, "offline_error": None, "exec_error": None}
+    res = {"setup_error": None, "online_error": None, "offline_error": None, "exec_error": None,
+           "output_encoding": runner.env["output_encoding"]}
     res["setup_steps"] = []
     try:
         for h in start:
@@ -740,7 +742,7 @@ def run_case(runner, tmp, cmd, start, target):
     del runner.cb_log[:]
     with VerSpy() as spy:
         try:
-            script, steps = runner.offline(cmd, start, target)
+            script, steps = runner.offline(cmd, list(start_spelled or start), target)
             res["script"] = script
             res["steps"] = [s.short_log for s in steps] if steps is not None else None
         except Exception as e:
